@@ -522,6 +522,43 @@ pub fn gen_wrap_session(seed: u64, index: u64, c: &Corpus) -> Session {
     }
 }
 
+/// A *sibling sweep*: every harvested item of one group of derives that usually go together
+/// (Deref/DerefMut, Index/IndexMut, Unwrap/TryUnwrap/IsVariant, ...) is expanded under its own derive and,
+/// right after, under each of the other derives of the group — helper attributes of the first derive still on
+/// it — on one worker of one process. What one derive leaves behind for "its partner" shows here.
+pub fn gen_sibling_session(seed: u64, index: u64, c: &Corpus) -> Session {
+    let mut r = Rng::new(seed, index);
+    let groups = workload::SIBLING_GROUPS;
+    let g = groups[((index / 12) as usize) % groups.len()];
+    let mut keys: Vec<Key> = Vec::new();
+    let mut reqs: Vec<Request> = Vec::new();
+    let mut members: Vec<usize> = c.base.iter().enumerate().filter(|(_, k)| g.contains(&k.derive.as_str())).map(|(i, _)| i).collect();
+    r.shuffle(&mut members);
+    for i in members.into_iter().take(400) {
+        let k = c.base[i].clone();
+        keys.push(k.clone());
+        let ka = keys.len() - 1;
+        for d in g.iter().filter(|d| **d != k.derive.as_str()) {
+            keys.push(Key { derive: d.to_string(), item: k.item.clone() });
+            let kb = keys.len() - 1;
+            let (a, b) = if r.chance(1, 2) { (ka, kb) } else { (kb, ka) };
+            reqs.push(Request { w: 0, k: a, mode: Mode::Catch });
+            reqs.push(Request { w: 0, k: b, mode: Mode::Catch });
+        }
+    }
+    if reqs.is_empty() {
+        return gen_session(seed, index + 1_000_003, c);
+    }
+    let env = gen_env(&mut r, &c.env_names);
+    Session {
+        index,
+        segments: vec![Segment {
+            env,
+            sched: Schedule { keys, workers: 1, requests: reqs, prealloc: vec![], stack_pad: 0, worker_stack_kb: 8192, dump_text: false },
+        }],
+    }
+}
+
 pub fn gen_session(seed: u64, index: u64, c: &Corpus) -> Session {
     let mut r = Rng::new(seed, index);
     // swarm: sizes and mixes are redrawn per session
@@ -531,9 +568,12 @@ pub fn gen_session(seed: u64, index: u64, c: &Corpus) -> Session {
     // sessions hammers each hash-ordered family at least once)
     let hot = index % 12 == 5;
     let focus = ((index / 12) as usize) % workload::N_FAMILIES;
-    // another session in twelve is a *wrap* session (see below)
+    // another session in twelve is a *wrap* session (see below), another a *sibling sweep*
     if index % 12 == 11 {
         return gen_wrap_session(seed, index, c);
+    }
+    if index % 12 == 2 {
+        return gen_sibling_session(seed, index, c);
     }
     let big = !hot && r.chance(1, 8);
     // and one session in 16 uses *giant* items (40x: hundreds of variants / fields), few of them
@@ -558,7 +598,15 @@ pub fn gen_session(seed: u64, index: u64, c: &Corpus) -> Session {
         if hot && r.chance(9, 10) {
             which = focus;
         }
+        // in a hot session one generated item in ten is a giant (size thresholds of "fast paths")
+        let giant_item = hot && r.chance(1, 10);
+        if giant_item {
+            workload::SCALE.with(|s| s.set(40));
+        }
         let k = workload::family(&mut r, which);
+        if giant_item {
+            workload::SCALE.with(|s| s.set(1));
+        }
         probes.push(keys.len());
         keys.push(k);
     }
@@ -833,6 +881,7 @@ pub struct Stats {
     pub racy_sessions: u64,
     pub sut_threaded_sessions: u64,
     pub seam_threads_surplus: u64,
+    pub racy_evidence: Vec<Session>,
 }
 
 fn key_hash(k: &Key) -> u64 {
@@ -873,6 +922,9 @@ pub fn check_session(ctx: &Ctx, refs: &RefCache, s: &Session, st: &mut Stats, se
                     // the comparison with the references below reports; not a fault of the simulator
                     st.racy_sessions += 1;
                     ctx.racy.fetch_add(1, std::sync::atomic::Ordering::Relaxed);
+                    if st.racy_evidence.len() < 2 {
+                        st.racy_evidence.push(s.clone());
+                    }
                 } else if outs.iter().zip(outs2.iter()).any(|(a, b)| a.raw != b.raw) {
                     // same answers, other addresses. If the code under simulation created threads of its own
                     // (more than the session's workers and their replacements), the layout is no longer the
@@ -1323,6 +1375,25 @@ pub fn replay(ctx: &Ctx, rp: &Replay) -> Result<(bool, Value), String> {
     ))
 }
 
+/// Replay of a *racy* finding: the same plan, run `attempts` times in fresh processes over fresh durable
+/// directories; reproduces if any two runs answer differently.
+pub fn replay_racy(ctx: &Ctx, s: &Session, attempts: usize) -> Result<(bool, Value), String> {
+    let answers = |outs: &[ChildOut]| outs.iter().flat_map(|o| o.obs.iter().map(|x| (x.k, x.class.clone(), x.digest.clone()))).collect::<Vec<_>>();
+    let first = answers(&run_session(ctx, &s.segments)?);
+    for n in 1..attempts {
+        let again = answers(&run_session(ctx, &s.segments)?);
+        if again != first {
+            let at = first.iter().zip(again.iter()).position(|(a, b)| a != b);
+            let key = at.map(|i| {
+                let k = first[i].0;
+                s.segments.iter().flat_map(|g| g.sched.keys.get(k)).next().cloned()
+            });
+            return Ok((true, json!({"runs": n + 1, "first_differing_request": at, "key": key})));
+        }
+    }
+    Ok((false, json!({"runs": attempts})))
+}
+
 // ------------------------------------------------------------------ batch driver
 
 pub struct BatchResult {
@@ -1383,6 +1454,7 @@ pub fn run_batch(ctx: Arc<Ctx>, corpus: Arc<Corpus>, refs: Arc<RefCache>, seed: 
         total.long_processes += s.long_processes;
         total.racy_sessions += s.racy_sessions;
         total.sut_threaded_sessions += s.sut_threaded_sessions;
+        total.racy_evidence.extend(s.racy_evidence);
         total.seam_threads_surplus += s.seam_threads_surplus;
         total.entropy_seeds.extend(s.entropy_seeds);
         total.layouts.extend(s.layouts);
